@@ -61,10 +61,11 @@ class SSet:
 
 class SMatch:
     _mutable_ = False
-    __slots__ = ("string", "s", "e", "groups_")
+    __slots__ = ("string", "s", "e", "groups_", "gnames")
 
-    def __init__(self, string, s, e, groups=()):
+    def __init__(self, string, s, e, groups=(), gnames=None):
         self.string, self.s, self.e, self.groups_ = string, s, e, tuple(groups)
+        self.gnames = gnames or {}
 
     def __deepcopy__(self, memo):
         return self
@@ -786,7 +787,7 @@ class Models:
             if name == "__class__":
                 return mt
             if isinstance(obj, SMatch):
-                if name in ("group", "start", "end", "span", "groups", "string", "__getitem__"):
+                if name in ("group", "start", "end", "span", "groups", "string", "__getitem__", "groupdict", "lastgroup"):
                     if name == "string":
                         return obj.string
                     return BuiltinMethod(obj, name)
@@ -1822,6 +1823,10 @@ class Models:
 
     # ---- match
     def match_method(self, W, m, name, a, k):
+        if a and isinstance(a[0], str):
+            if a[0] not in m.gnames:
+                pyraise(IndexError, "no such group")
+            a = (m.gnames[a[0]],) + tuple(a[1:])
         if name in ("group", "__getitem__"):
             g = a[0] if a else 0
             if g == 0:
@@ -1841,4 +1846,7 @@ class Models:
         if name == "groups":
             cs = chars(m.string)
             return tuple(None if sp is None else mk(cs[sp[0]:sp[1]]) for sp in m.groups_)
+        if name == "groupdict":
+            cs = chars(m.string)
+            return {nm: (None if m.groups_[i - 1] is None else mk(cs[m.groups_[i - 1][0]:m.groups_[i - 1][1]])) for nm, i in m.gnames.items()}
         raise Unsupported(f"match.{name}")
